@@ -491,20 +491,21 @@ Proof.
     + destruct r as [v|vs].
       * (* region, scalar *)
         destruct (resolve_set cartC (sshape S) (KRegion es) (RScalar v)) as [[s' asg']|] eqn:E; [|discriminate].
-        destruct (sp_set isz S s' asg' false) as [S1|] eqn:E1; [|discriminate]. inversion H; subst.
+        destruct (sp_set isz S s' (dedupe_last asg') false) as [S1|] eqn:E1; [|discriminate]. inversion H; subst.
         destruct (resolve_region_scalar _ _ _ _ _ E) as (asg & E' & Heq). rewrite E'.
         eexists. split; [reflexivity|].
         eapply sp_set_refines; eauto.
         -- eapply resolve_set_length; eauto.
-        -- eapply resolve_set_inb; eauto.
+        -- intros e He. apply dedupe_last_in in He. clear E'. eapply resolve_set_inb; eauto.
+        -- intros j d. rewrite (dedupe_last_equiv asg' j d). apply Heq.
       * (* region, tensor *)
         destruct (resolve_set cartF (sshape S) (KRegion es) (RValues vs)) as [[s' asg]|] eqn:E; [|discriminate].
-        destruct (sp_set isz S s' asg true) as [S1|] eqn:E1; [|discriminate]. inversion H; subst.
+        destruct (sp_set isz S s' (dedupe_last asg) true) as [S1|] eqn:E1; [|discriminate]. inversion H; subst.
         eexists. split; [reflexivity|].
         eapply sp_set_refines; eauto.
         -- eapply resolve_set_length; eauto.
-        -- eapply resolve_set_inb; eauto.
-        -- apply asg_equiv_refl.
+        -- intros e He. apply dedupe_last_in in He. eapply resolve_set_inb; eauto.
+        -- apply dedupe_last_equiv.
 Qed.
 
 End S.
